@@ -94,6 +94,13 @@ def for_loops(fn):
     return [n for n in preorder(body(fn)) if n.get("kind") == "ForStmt"]
 
 
+def mirror_cond(c):
+    """`bound > i` / `bound >= i` rewritten as `i < bound` / `i <= bound`"""
+    if c.get("kind") == "BinaryOperator" and c.get("opcode") in (">", ">=") and strip(kids(c)[1]).get("kind") == "DeclRefExpr" and strip(kids(c)[0]).get("kind") != "DeclRefExpr" or (c.get("kind") == "BinaryOperator" and c.get("opcode") in (">", ">=") and strip(kids(c)[1]).get("kind") == "DeclRefExpr"):
+        return dict(c, opcode={">": "<", ">=": "<="}[c["opcode"]], inner=[kids(c)[1], kids(c)[0]])
+    return c
+
+
 def loop_range(loop):
     """(var, start, stop) for `for (int v = a; v < b; ++v)`; None otherwise"""
     init, _, cond, inc, _b = (loop["inner"] + [None] * 5)[:5]
@@ -101,7 +108,7 @@ def loop_range(loop):
         decl = kids(init)[0]
         var = decl["name"]
         start = ceval(kids(decl)[0])
-        c = strip(cond)
+        c = mirror_cond(strip(cond))
         if c["kind"] != "BinaryOperator" or c["opcode"] not in ("<", "<="):
             return None
         if ctext(kids(c)[0]) != var:
@@ -117,3 +124,46 @@ def loop_range(loop):
         return var, start, stop
     except (KeyError, IndexError, TypeError):
         return None
+
+
+def const_locals(fn) -> dict:
+    """{name: initialiser text} for locals declared with an initialiser and never assigned again (single definition):
+    the textual queries of the rule files see through such hoisted sub-expressions"""
+    import re
+
+    inits, writes = {}, set()
+    for n in preorder(body(fn)):
+        k = n.get("kind")
+        if k == "VarDecl" and kids(n):
+            init = kids(n)[-1]
+            if init.get("kind") not in ("InitListExpr",):
+                inits[n["name"]] = ctext(strip(init))
+        elif k in ("BinaryOperator", "CompoundAssignOperator") and (n.get("opcode") == "=" or k == "CompoundAssignOperator"):
+            lhs = strip(kids(n)[0])
+            if lhs.get("kind") == "DeclRefExpr":
+                writes.add(lhs["referencedDecl"]["name"])
+        elif k == "UnaryOperator" and n.get("opcode") in ("++", "--"):
+            t = strip(kids(n)[0])
+            if t.get("kind") == "DeclRefExpr":
+                writes.add(t["referencedDecl"]["name"])
+        elif k == "UnaryOperator" and n.get("opcode") == "&":
+            t = strip(kids(n)[0])
+            if t.get("kind") == "DeclRefExpr":
+                writes.add(t["referencedDecl"]["name"])  # address taken: may be written through the pointer
+    return {k: v for k, v in inits.items() if k not in writes and not re.search(r"\b(%s)\b" % re.escape(k), v)}
+
+
+def rtext(fn, node, keep=()) -> str:
+    """ctext with single-definition locals replaced by their initialisers (parenthesised), to a fixpoint"""
+    import re
+
+    t = ctext(strip(node))
+    cl = {k: v for k, v in const_locals(fn).items() if k not in keep}
+    for _ in range(4):
+        new = t
+        for k, v in cl.items():
+            new = re.sub(r"(?<![\w>.])%s\b" % re.escape(k), "(" + v + ")", new)
+        if new == t:
+            break
+        t = new
+    return t
